@@ -6,6 +6,17 @@ import random
 WORDS = ["a", "seg", "main", "audio-1", "vid,eo", "k=v", "a b", "x,y=z", "日本語", "é", "ü,ñ", "😀", "A/B", "p:q", "#h", "1", "0x1F", "NONE", "YES", "id.1"]
 URIS = ["a.ts", "b.ts", "http://media.example.com/first.ts", "https://p.example/s/1.ts?x=1&y=2", "seg-1.mp4", "../up/セグ.ts", "fileSequence2680.ts", "u", "main.mp4"]
 KEYFORMATS = [None, "identity", "com.apple.streamingkeydelivery", "urn:uuid:edef8ba9-79d6-4ace-a3c8-27dcd51d21ed", "com.microsoft.playready", "my.format", "f2"]
+# other formats that only look like the well-known ones (RFC 8216: the KEYFORMAT string is compared as written)
+KEYFORMATS_LOOKALIKE = ["Identity", "IDENTITY", "com.apple.StreamingKeyDelivery", "URN:UUID:EDEF8BA9-79D6-4ACE-A3C8-27DCD51D21ED", "com.microsoft.PlayReady",
+                        "identity2", "com.apple.streamingkeydelivery.v2"]
+
+
+def pick_keyformat(rng, choices=None):
+    if choices is None:
+        choices = KEYFORMATS
+    if choices is KEYFORMATS and rng.random() < 0.15:
+        return rng.choice(KEYFORMATS_LOOKALIKE)
+    return rng.choice(choices)
 BOUNDARY_INTS = [0, 1, 2, 255, 256, 2**32 - 1, 2**32, 2**53, 2**63 - 1, 2**63, 2**64 - 2, 2**64 - 1]
 DATES = ["2010-02-19T14:54:23.031+08:00", "2014-03-05T11:15:00Z", "1970-01-01T00:00:00.000Z", "not a date"]
 
@@ -125,7 +136,7 @@ def gen_key(rng, fmt_choices=KEYFORMATS):
     pairs = [("METHOD", rng.choice(["AES-128", "AES-128", "SAMPLE-AES"])), ("URI", q(rng.choice(["k1", "k2", "https://keys/1", "skd://x,y"]) ))]
     if rng.random() < 0.4:
         pairs.append(("IV", rng.choice(["0x", "0X"]) + "".join(rng.choice("0123456789abcdefABCDEF") for _ in range(32))))
-    f = rng.choice(fmt_choices)
+    f = pick_keyformat(rng, fmt_choices)
     if f is not None:
         pairs.append(("KEYFORMAT", q(f)))
     if rng.random() < 0.3:
